@@ -51,6 +51,12 @@ pub enum Ev {
     Release(u16),
     /// The explorer sent the interrupt signal.
     Interrupt,
+    /// A user future drove a nested run (kind 1 = for_each_concurrent, 2 = fold_async, 3 = stream, 4 = for_each_concurrent with functions that yield twice, 5 = try_for_each_concurrent)
+    /// on the same graph to its end from inside its own first poll.
+    Nested(u16),
+    /// User future i returned Pending after waking itself (yield_now-like): it is polled again
+    /// although nothing completed it.
+    SelfWake(u16),
     /// A user future sent the interrupt signal itself while the call was being polled (at its
     /// first poll or in the poll in which it completes).
     InterruptMid,
@@ -153,6 +159,16 @@ pub struct Shared {
     pub mid_int: Option<Box<dyn Fn()>>,
     /// The signal was sent (by the explorer between polls or by a user future).
     pub int_sent: bool,
+    /// Drives a complete nested run of the given kind on the same graph (set for `&self` APIs).
+    pub nested: Option<Box<dyn Fn(usize) -> NestedRun>>,
+    pub nested_left: u8,
+    pub nested_runs: Vec<NestedRun>,
+    /// How many more times a user future may wake itself and return Pending (inside-poll
+    /// behaviour of the caller's code; 0 = not offered).
+    pub selfwake_left: u8,
+    /// How many more times a completing user future may complete a sibling from inside its own
+    /// poll (0 = not offered).
+    pub sibling_left: u8,
 }
 
 pub type Sh = Rc<RefCell<Shared>>;
@@ -185,8 +201,24 @@ impl Shared {
             imm_default,
             mid_int: None,
             int_sent: false,
+            nested: None,
+            nested_left: 0,
+            nested_runs: vec![],
+            selfwake_left: 0,
+            sibling_left: 0,
         }))
     }
+}
+
+/// A run on the same graph started and driven to its end by a user future of the outer run.
+#[derive(Clone, Debug, PartialEq, Eq, Serialize, Deserialize)]
+pub struct NestedRun {
+    pub kind: u8,
+    /// Events of the nested run in order: +(i+1) = function i handed out, -(i+1) = its future
+    /// returned (kinds 1-3: at once; kind 4: after two self-woken Pendings).
+    pub order: Vec<i32>,
+    /// The nested call returned (the stream ended) within its poll horizon.
+    pub completed: bool,
 }
 
 /// The user future handed to the library: completes only when the explorer
@@ -204,6 +236,20 @@ impl Future for Gate {
         let mut s = self.sh.borrow_mut();
         let id = self.id;
         let first = !s.first_polled[id];
+        // a function may run the same graph again (`&self` methods) from inside its own poll
+        if first && s.nested.is_some() && s.nested_left > 0 {
+            let c = s.choose(6, 0);
+            if c > 0 {
+                s.nested_left -= 1;
+                s.ev.push(Ev::Nested(c as u16));
+                let f = s.nested.take().expect("checked");
+                drop(s);
+                let r = f(c);
+                s = self.sh.borrow_mut();
+                s.nested = Some(f);
+                s.nested_runs.push(r);
+            }
+        }
         if first {
             s.first_polled[id] = true;
             if s.imm_choice {
@@ -221,10 +267,41 @@ impl Future for Gate {
             s.ev.push(Ev::InterruptMid);
             (s.mid_int.as_ref().expect("checked"))();
         }
+        // a function that yields: wakes itself and returns Pending, so the library polls it again
+        // although nothing completed it
+        if first && !s.released[id] && s.selfwake_left > 0 && s.choose(2, 0) == 1 {
+            s.selfwake_left -= 1;
+            s.ev.push(Ev::SelfWake(id as u16));
+            s.wakers[id] = Some(cx.waker().clone());
+            drop(s);
+            cx.waker().wake_by_ref();
+            return Poll::Pending;
+        }
         if s.released[id] {
+            // a completing function may complete a sibling from inside its own poll (user futures
+            // that talk to each other): several functions end within one poll of the call
+            let mut sibling_waker = None;
+            if s.sibling_left > 0 {
+                let cands: Vec<usize> = (0..s.n).filter(|&j| j != id && s.started[j] > 0 && !s.released[j]).collect();
+                if !cands.is_empty() {
+                    let c = s.choose(cands.len() + 1, 0);
+                    if c > 0 {
+                        let j = cands[c - 1];
+                        s.sibling_left -= 1;
+                        s.released[j] = true;
+                        s.ev.push(Ev::Release(j as u16));
+                        sibling_waker = s.wakers[j].take();
+                    }
+                }
+            }
             s.ended[id] = true;
             s.ev.push(Ev::End(id as u16));
-            Poll::Ready(!s.fail[id])
+            let r = !s.fail[id];
+            drop(s);
+            if let Some(w) = sibling_waker {
+                w.wake();
+            }
+            Poll::Ready(r)
         } else {
             s.wakers[id] = Some(cx.waker().clone());
             Poll::Pending
